@@ -642,6 +642,8 @@ class TaborProgramManagement(ProgramManagement):
             waveform_to_segment[wf_index] = segment_index
 
         if np.any(to_amend):
+            # the placement counted the unreferenced segments behind the last referenced one as free space
+            self._channel_tuple.cleanup()
             segments_to_amend = [segments[idx] for idx in np.flatnonzero(to_amend)]
             waveform_to_segment[to_amend] = self._channel_tuple._amend_segments(segments_to_amend)
 
@@ -1078,7 +1080,7 @@ class TaborChannelTuple(AWGChannelTuple):
         new_reference_counter[known_pos_in_memory] += 1
 
         to_upload_size = np.sum(segment_lengths[unknown] + 16)
-        free_points_in_total = self.total_capacity - np.sum(self._segment_capacity[self._segment_references > 0])
+        free_points_in_total = self.total_capacity - int(np.sum(self._segment_capacity[self._segment_references > 0]))
         if free_points_in_total < to_upload_size:
             raise MemoryError("Not enough free memory",
                               free_points_in_total,
@@ -1127,7 +1129,7 @@ class TaborChannelTuple(AWGChannelTuple):
                 to_amend[segment_idx] = False
                 to_insert[segment_idx] = fitting_segment
 
-        free_points_at_end = self.total_capacity - np.sum(self._segment_capacity[:first_free])
+        free_points_at_end = self.total_capacity - int(np.sum(self._segment_capacity[:first_free]))
         if np.sum(segment_lengths[to_amend] + 16) > free_points_at_end:
             raise MemoryError("Fragmentation does not allow upload.",
                               np.sum(segment_lengths[to_amend] + 16),
